@@ -219,7 +219,7 @@ def run_one(rec, G, inputs, tag, trace, relation=True, unit=None):
 
 def run_shard(rec):
     quick = rec.tier == 'quick'
-    rec.deadline = time.time() + (60 if quick else 900)
+    rec.deadline = time.time() + (300 if quick else 900)
     rng = rec.rng
     idx = 0
     start_kinds = ['start', 'Start', 'class', 'class-let', 'class-pass']
